@@ -111,6 +111,30 @@ def check_graph(case):
             fails.append((f"graph/generators", f"Stabilizer(graph {gid} on {n} vertices).to_list() = {got}, expected X_v Z_N(v): {want_s}", {}))
     except Exception as e:  # noqa: BLE001
         return [("graph/ctor-raised", f"Stabilizer(Graph) raised {type(e).__name__} for graph {gid} (n={n})", {})]
+    # the same graph assembled with the builder methods, the way a user writes it: a star per vertex with the centre repeated among its
+    # leaves ("connect v to every vertex of this list"), paths with an immediately repeated vertex, single edges in both orders
+    try:
+        gb = L.Graph(n)
+        for v in range(n):
+            nb = [u for u in range(n) if a[v, u]]
+            if not nb:
+                continue
+            style = (gid + v) % 3
+            if style == 0:
+                gb.add_star([v] + sorted(nb + [v]))
+            elif style == 1:
+                for u in nb:
+                    gb.add_path([u, v, v])
+            else:
+                for u in nb:
+                    gb.add_edge(u, v)
+                    gb.add_edge(v, u)
+        gotb = list(L.Stabilizer(gb).to_list())
+        if gotb != want_s:
+            fails.append(("graph/built-with-methods", f"graph {gid} on {n} vertices assembled with add_star / add_path / add_edge (vertices repeated): "
+                          f"Stabilizer(graph).to_list() = {gotb}, expected {want_s}", {}))
+    except Exception as e:  # noqa: BLE001
+        fails.append(("graph/builder-raised", f"assembling graph {gid} (n={n}) with add_star / add_path / add_edge raised {type(e).__name__}: {e}", {}))
     try:
         qc = g.to_circuit()
         st2 = L.Stabilizer(qc)
